@@ -1,0 +1,20 @@
+//go:build verif
+
+// Contracts for package type1006, checked by /verif/govc (see /verif/DESIGN.md).
+// This file contains only comments; it is compiled only with -tags verif and
+// has no effect on the package.
+
+package type1006
+
+// Layout as type 1005 followed by the 16-bit antenna height: 168 bits.
+//@ func GetMessage
+//@ ensures[C05,C20] (r1 == nil) == (8*len(bitStream) - 48 >= 168 && bits(bitStream, 24, 12) == 1006)
+//@ ensures r1 == nil ==> r0 != nil && fresh(r0)
+//@ ensures r1 != nil ==> r0 == nil
+//@ ensures[C05] r1 == nil ==> r0.MessageType == 1006 && r0.StationID == bits(bitStream, 36, 12) && r0.ITRFRealisationYear == bits(bitStream, 48, 6) && r0.Ignored1 == bits(bitStream, 54, 4)
+//@ ensures[C05] r1 == nil ==> r0.AntennaRefX == sbits(bitStream, 58, 38) && r0.Ignored2 == bits(bitStream, 96, 2) && r0.AntennaRefY == sbits(bitStream, 98, 38) && r0.Ignored3 == bits(bitStream, 136, 2) && r0.AntennaRefZ == sbits(bitStream, 138, 38)
+//@ ensures[C05] r1 == nil ==> r0.AntennaHeight == bits(bitStream, 176, 16) && r0.logLevel == logLevel
+
+//@ func (*Message).String
+//@ requires[C07] message != nil
+//@ arith wrap
